@@ -129,6 +129,7 @@ type runner struct {
 	c        *fw.Ctx
 	local    string
 	reported map[string]int
+	t0       time.Time
 }
 
 func (r *runner) violation(sig, part, msg string, k kase, again func() string) {
